@@ -64,8 +64,17 @@ extern int mpt_queue_crop(MPT_STRUCT(queue) *queue, size_t pos, size_t len)
 	
 	/* move data over segments */
 	if (high) {
-		uint8_t *src = ((uint8_t *) queue->base) + len - low;
-		if (low <= post) {
+		uint8_t *src = queue->base;
+		/* keep remaining data of lower segment */
+		if (len < low) {
+			(void) memmove(base, base + len, low - len);
+			base += low - len;
+			post = high;
+			low = len;
+		} else {
+			src += len - low;
+		}
+		if (post <= low) {
 			memcpy(base, src, post);
 			ret = 1;
 		}
